@@ -299,7 +299,7 @@ def main(rep, tier, seed):
         _, model = F.coq_eval("c14", HEADER, f"run_case ({small['coq']})")
         rep.violation(f"case{idx}_{profile}", {
             "kind": f"model/implementation disagreement in the {profile} profile: dasp_signal::Buffered does not behave as the prefetcher the proved model refines",
-            "profile": profile, "case": {k: small[k] for k in CASE_KEYS},
+            "profile": profile, "case": {k: small[k] for k in CASE_KEYS}, **({"why": broken} if broken else {}),
             "harness_line": small["line"], "implementation_observations": obs_by_profile[profile],
             "observations_by_profile": obs_by_profile, "model_observations": model[-3000:],
             "original_case_index": idx, "replay": "./check.py C14 --replay <this file>"})
